@@ -130,6 +130,30 @@ def oracle(n, ops, outs, counts):
         seen.setdefault(j, set()).add(v)
     if all_mem and any(c > 1 for c in counts):
         fails.append(('computed_more_than_once', {'calls': counts}))
+    # (d) once an instance saw the free memory at or below the threshold at a miss it stores nothing any more: an
+    # example that was not stored before is computed anew at every access through that instance
+    cached, latched, fresh = set(), {0: False}, {}
+    ninst = 1
+    for t, (op, o) in enumerate(zip(ops, outs)):
+        if op['k'] == 'copy':
+            if isinstance(o, dict) and 'inst' in o:
+                latched[o['inst']] = False
+            continue
+        if op['k'] != 'get' or not isinstance(o, dict) or 'val' not in o:
+            continue
+        j = op['i'] if op['i'] >= 0 else op['i'] + n
+        x = op.get('inst', 0)
+        if not 0 <= j < n or j in cached or x not in latched:
+            continue
+        if not latched[x] and not op.get('mem', True):
+            latched[x] = True
+        if not latched[x]:
+            cached.add(j)
+            continue
+        if o['val'] in fresh.setdefault(j, set()):
+            fails.append(('stored_after_threshold_was_crossed', {'t': t, 'op': op, 'value': o['val'], 'values_before': sorted(fresh[j])}))
+            break
+        fresh[j].add(o['val'])
     return fails
 
 
